@@ -17,7 +17,7 @@ import (
 // error that is not a success and that is retryable (the server disclaimed
 // it); every request at or below it has completed with its own response.
 //
-//verif:harness prop=C11 unwind=200 timeout=600
+//verif:harness prop=C11,C12 unwind=200 timeout=600
 func VerifH_C11_goaway() {
 	cl := vStartClient()
 	calls := []*vCall{cl.request("GET", "/1", nil), cl.request("GET", "/3", nil), cl.request("GET", "/5", nil)}
